@@ -57,11 +57,10 @@ def run(ctx):
     lines = []
     for c in cases:
         lines.append("(peval %s)" % exprs.p_sexp(c["e"]))
-        lines.append("(peval %s)" % exprs.p_sexp(c["e"], absval=True))
         lines.append("(pinfo %s (%s))" % (exprs.p_sexp(c["e"]), " ".join(str(k) for k in c["keys"])))
     mod = run_model(lines)
     for idx, c in enumerate(cases):
-        m, mabs, minfo = mod[3 * idx], mod[3 * idx + 1], mod[3 * idx + 2]
+        m, minfo = mod[2 * idx], mod[2 * idx + 1]
         r = impl[idx]
         nop = exprs.nops(c["e"])
         ctx.count(c["e"], nontrivial=nop >= 2, bucket="%s/ops=%d%s" % (c["fam"], min(nop, 9), "/malformed" if c["malformed"] else ""))
@@ -78,7 +77,7 @@ def run(ctx):
             continue
         ro = r["ok"]
         dm, di = exprs.denot_model(m), exprs.denot_impl(ro)
-        dabs = exprs.denot_model(mabs) if not isinstance(mabs, str) else {}
+        dabs = exprs.fmag(exprs.mag_p(c["e"]))
         bound = max([abs(v) for v in dabs.values()] or [0])
         exact = c["fam"] == "int" and bound < 2 ** 52
         msg = exprs.compare_denot(dm, di, dabs, nop + 2, exact)
@@ -110,7 +109,7 @@ def run(ctx):
     sl = [i for i, c in enumerate(cases) if exprs.nops(c["e"]) <= 7][: (30 if quick else 120)]
     terms = []
     for i in sl:
-        m = mod[3 * i]
+        m = mod[2 * i]
         if isinstance(m, str):
             exp = "None"
         else:
